@@ -1,0 +1,31 @@
+//go:build verif
+
+package comet
+
+import "sync/atomic"
+
+// Verification hooks (build tag "verif" only). A harness may install a handler
+// that is called at named points of the storage layer: file-operation
+// boundaries of flush / compaction / segment deletion (crash points), the
+// window between choosing the active memtable and writing to it, background
+// worker iterations, and segment loads. Without a handler the calls do nothing;
+// without the build tag they compile to nothing (see verif_hooks_off.go).
+
+type verifHandlerFunc func(name string, args ...any)
+
+var verifHandler atomic.Pointer[verifHandlerFunc]
+
+func verifPoint(name string, args ...any) {
+	if h := verifHandler.Load(); h != nil {
+		(*h)(name, args...)
+	}
+}
+
+// verifSetHandler installs (or, with nil, removes) the handler.
+func verifSetHandler(h verifHandlerFunc) {
+	if h == nil {
+		verifHandler.Store(nil)
+		return
+	}
+	verifHandler.Store(&h)
+}
